@@ -111,8 +111,15 @@ func SessionC18(t *tape.Tape) *core.RunResult {
 		}
 	}
 	seed0 := int64(t.Choose(1 << 16))
-	res.Tracef("wiring=%s noise=%d depth=%d predecessor=%v game=%q", w, noise, depth, predecessor, g.FEN())
-	opts := engine.Options{Depth: 0, Hash: 0, Noise: noise}
+	// Hash on in some runs: every analysis here starts with Engine.Reset, which is documented to give the
+	// engine a new table, so even then "no hash table is carried over" and the solo result must repeat.
+	hash := uint(0)
+	if t.Chance(1, 3) {
+		hash = 1
+		res.Probe("hash-on-reset-before-each-analysis")
+	}
+	opts := engine.Options{Depth: 0, Hash: hash, Noise: noise}
+	res.Tracef("wiring=%s noise=%d hash=%d depth=%d predecessor=%v game=%q", w, noise, hash, depth, predecessor, g.FEN())
 	steps := 0
 
 	analyze := func(e *engSim, gm *rules.Game, d int) bool {
